@@ -198,7 +198,9 @@ func c03CheckRaw(in c03Input) (key, what string) {
 	}
 	// tokens and comments as one sequence: no comment moves across a token (only when gofmt keeps
 	// every comment verbatim, so that the two sequences are comparable element by element)
-	if strings.Join(g, "\x00") == strings.Join(a, "\x00") {
+	// (... and the output's comments are the input's too: go/printer may still reformat a doc comment
+	// in dst's print that gofmt's first pass left alone, see above)
+	if strings.Join(g, "\x00") == strings.Join(a, "\x00") && strings.Join(b, "\x00") == strings.Join(a, "\x00") {
 		ws, os_ := scanSeq(string(want)), scanSeq(out)
 		if strings.Join(ws, "\x00") != strings.Join(os_, "\x00") {
 			return "c03-comment-moved", "a comment sits between different tokens than in gofmt(input): " + firstListDiff(ws, os_)
